@@ -4,7 +4,6 @@ import (
 	"fmt"
 	"go/token"
 	"go/types"
-	"sort"
 	"time"
 
 	"golang.org/x/tools/go/ssa"
@@ -24,54 +23,157 @@ func c11Timed(name string, f ruleFn) ruleFn {
 	}
 }
 
-// c11Steps lists the calls in fn to functions of the security package that return an error: the
-// protocol steps whose failures must not be lost.
-func c11Steps(fn *ssa.Function) []*ssa.Call {
-	var out []*ssa.Call
-	allInstrs(fn, func(_ *ssa.BasicBlock, _ int, in ssa.Instruction) {
-		call, ok := in.(*ssa.Call)
-		if !ok {
-			return
-		}
-		g := calleeFn(call)
-		if g == nil || fnPkg(g) == nil || fnPkg(g) != fnPkg(fn) || len(errResults(call)) == 0 {
-			return
-		}
-		out = append(out, call)
-	})
+// c11Step is a protocol step whose failure must not be lost: a call, in the exchange function or in a
+// helper of it that cannot itself report failure (no error result), to a function of the security
+// package that returns an error.
+type c11Step struct {
+	env  *c11Env
+	call *ssa.Call
+	site ssa.Instruction // the instruction of the exchange function through which the step runs
+}
+
+func c11Steps(root *c11Env) []c11Step {
+	var out []c11Step
+	var walk func(e *c11Env, site ssa.Instruction)
+	walk = func(e *c11Env, site ssa.Instruction) {
+		allInstrs(e.fn, func(_ *ssa.BasicBlock, _ int, in ssa.Instruction) {
+			call, ok := in.(*ssa.Call)
+			if !ok {
+				return
+			}
+			g := calleeFn(call)
+			if g == nil || fnPkg(g) == nil || fnPkg(g) != fnPkg(root.fn) {
+				return
+			}
+			s := site
+			if s == nil {
+				s = in
+			}
+			if len(errResults(call)) > 0 {
+				out = append(out, c11Step{e, call, s})
+				return
+			}
+			hasErr := false
+			for i := 0; i < g.Signature.Results().Len(); i++ {
+				if isErrorType(g.Signature.Results().At(i).Type()) {
+					hasErr = true
+				}
+			}
+			if he := e.enter(call); he != nil && !hasErr {
+				walk(he, s)
+			}
+		})
+	}
+	walk(root, nil)
 	return out
 }
 
 // c11NetworkReturn: the return hands back errors.Unwrap(err) (or err itself) of a step whose failing
-// edge dominates it -- the "network class, abort immediately" idiom. Such a return is an error return.
-func (c *Ctx) c11NetworkReturn(fn *ssa.Function, r RetPoint, steps []*ssa.Call) bool {
+// edge dominates it, or errors.Unwrap(x) under the true edge of errors.Is(x, ErrNetwork) -- the
+// "network class, abort immediately" idiom (ErrNetwork is only ever the cause of a wrap, see
+// ErrNetwork#only-wrapped). Such a return is an error return.
+func (c *Ctx) c11NetworkReturn(fn *ssa.Function, r RetPoint) bool {
+	if len(r.Ret.Results) == 0 {
+		return false
+	}
 	v := r.Ret.Results[len(r.Ret.Results)-1]
+	unwrapped := false
 	if call, ok := v.(*ssa.Call); ok {
 		co := calleeObj(call)
 		if co != nil && co.Name() == "Unwrap" && len(call.Call.Args) == 1 {
 			v = call.Call.Args[0]
+			unwrapped = true
 		}
 	}
-	for _, s := range steps {
-		for _, e := range errResults(s) {
+	hit := false
+	allInstrs(fn, func(_ *ssa.BasicBlock, _ int, in ssa.Instruction) {
+		call, ok := in.(*ssa.Call)
+		if !ok || hit {
+			return
+		}
+		g := calleeFn(call)
+		if g == nil || fnPkg(g) == nil || fnPkg(g) != fnPkg(fn) {
+			return
+		}
+		for _, e := range errResults(call) {
 			if !aliases(fn, e)[v] {
 				continue
 			}
-			_, fail, _ := callErrEdges(fn, s)
-			for _, fe := range fail {
-				if edgeDominates(fn, fe, r.Ret.Block()) {
-					return true
-				}
+			fail := newCuts()
+			c11NilErrCuts(fn, call, fail, true)
+			if len(fail.Edges)+len(fail.Via) > 0 && findPath(entryPoint(fn), r.Target(), fail) == nil {
+				hit = true
 			}
 		}
+	})
+	if hit {
+		return true
 	}
-	return false
+	if !unwrapped {
+		return false
+	}
+	// errors.Is(x, ErrNetwork) is true on every path to the return
+	al := aliases(fn, v)
+	isNet := newCuts()
+	n := 0
+	allInstrs(fn, func(_ *ssa.BasicBlock, _ int, in ssa.Instruction) {
+		call, ok := in.(*ssa.Call)
+		if !ok || len(call.Call.Args) != 2 || !al[call.Call.Args[0]] {
+			return
+		}
+		co := calleeObj(call)
+		if co == nil || co.Name() != "Is" {
+			return
+		}
+		ld, isLd := call.Call.Args[1].(*ssa.UnOp)
+		if !isLd || ld.Op != token.MUL {
+			return
+		}
+		if g, isG := ld.X.(*ssa.Global); !isG || g.Name() != "ErrNetwork" || g.Pkg == nil || g.Pkg.Pkg != fnPkg(fn) {
+			return
+		}
+		n += c11CondCuts(fn, call, true, isNet)
+	})
+	return n > 0 && findPath(entryPoint(fn), r.Target(), isNet) == nil
+}
+
+// c11R1ErrRet: returns that cannot be success returns of an exchange body although their error operand is
+// not syntactically non-nil: network-class returns and the gate's own "return authData.AuthError"
+// (behind an AuthError != nil edge).
+func (c *Ctx) c11R1ErrRet(a *c11Anchors) func(e *c11Env, r RetPoint) bool {
+	seenQ := c.c11NewQuery(c.c11AuthErrFact(a, false))
+	return func(e *c11Env, r RetPoint) bool {
+		if len(r.Ret.Results) == 0 {
+			return false
+		}
+		if c.c11NetworkReturn(e.fn, r) {
+			return true
+		}
+		if v := r.Ret.Results[len(r.Ret.Results)-1]; c.c11LVField(c11LV{v, e}, a.fAuthErr) {
+			seen := seenQ.cutsOf(e)
+			return seen.n > 0 && findPath(entryPoint(e.fn), r.Target(), seen.cuts) == nil
+		}
+		return false
+	}
+}
+
+// c11Exits: the returns of body e through which a lost failure would count as success: its success
+// returns (network-class returns and the gate's own "return authData.AuthError" excluded), for a
+// helper without an error result every return.
+func (c *Ctx) c11Exits(e *c11Env, errRet func(*c11Env, RetPoint) bool) []Target {
+	var out []Target
+	for _, r := range c.successTargets(e.fn) {
+		if !errRet(e, r) {
+			out = append(out, r.Target())
+		}
+	}
+	return out
 }
 
 // C11-R1: deferred failures are not lost.
 func c11r1(c *Ctx) {
 	const rule = "C11-R1"
-	c.Doc(rule, "performTokenAuthenticationClient/Server: the error of every step is tested and on its failing edge either returned (network class) or handed to storeAuthError before any success return; after every step each success return, the setSharedSecret call and the store to negotiation.User are behind an AuthError==nil edge; storeAuthError sets AuthError (to its non-nil argument) and ErrorStatus=AUTH_PW_ERROR together and is their only writer")
+	c.Doc(rule, "performTokenAuthenticationClient/Server (with their helpers): the error of every step is tested and on its failing edge either returned (network class) or handed to storeAuthError before any success return; after every step each success return, the setSharedSecret call and the store to negotiation.User are behind an AuthError==nil edge; storeAuthError sets AuthError (to its non-nil argument) and ErrorStatus=AUTH_PW_ERROR together and is their only writer")
 	a := c.c11Need(rule)
 	if a == nil {
 		return
@@ -83,65 +185,76 @@ func c11r1(c *Ctx) {
 	for _, side := range []struct {
 		fn  *ssa.Function
 		min int
-	}{{a.client, 5}, {a.server, 4}} {
+	}{{a.client, 3}, {a.server, 3}} { // three messages per side: the smallest number of steps an exchange can have
 		fn := side.fn
 		name := fnName(fn)
-		steps := c11Steps(fn)
-		c.MinCount(rule, "steps of "+name, len(steps), side.min)
-		nilE, setE := fieldCondEdges(fn, a.fAuthErr)
-		var succ []Target
-		for _, r := range c.successTargets(fn) {
-			if c.c11NetworkReturn(fn, r, steps) {
-				c.Note("%s: return at %s hands back the step's own (unwrapped) network error; treated as an error return", rule, c.Pos(r.Ret.Pos()))
-				continue
-			}
-			// "if authData.AuthError != nil { return authData.AuthError }": the gate's failing side
-			if v := r.Ret.Results[len(r.Ret.Results)-1]; c11IsField(v, a.fAuthErr) {
-				gated := false
-				for _, e := range setE {
-					if edgeDominates(fn, e, r.Ret.Block()) {
-						gated = true
-					}
-				}
-				if gated {
-					continue
+		root := c11Root(fn)
+		steps := c11Steps(root)
+		// non-vacuity: the exchange still runs its steps; counted through helpers of any kind, so that
+		// grouping steps in a helper (which then is the step checked here) does not lower the count
+		reached := 0
+		for _, b := range c11Bodies(root) {
+			for _, s := range c11Steps(c11Root(b.fn)) {
+				if s.env.fn == b.fn {
+					reached++
 				}
 			}
-			succ = append(succ, r.Target())
 		}
+		c.MinCount(rule, "steps of "+name, reached, side.min)
+		c.MinCount(rule, "steps of "+name+" checked", len(steps), 1)
+		errRet := c.c11R1ErrRet(a)
+		succ := c.c11Exits(root, errRet)
 		c.MinCount(rule, "success returns of "+name, len(succ), 1)
-		gate := newCuts().AddEdges(nilE...)
-		stored := newCuts().AddInstrs(a.storeCalls(fn)...)
+		gateQ := c.c11NewQuery(c.c11AuthErrFact(a, true))
+		gateQ.errRet = errRet
+		gate := gateQ.cutsOf(root)
+		storedQ := c.c11NewQuery(a.storedFact())
+		storedQ.errRet = errRet
 		// things that must stay behind the gate
-		guarded := append([]Target{}, succ...)
-		for _, cs := range callsIn(fn, setSecret.Object()) {
-			guarded = append(guarded, Target{Instr: cs})
-		}
-		for _, st := range c11FieldStores(fn, a.fUser) {
-			guarded = append(guarded, Target{Instr: st})
-		}
+		secrets := c11CallsTo(root, func(call ssa.CallInstruction) bool {
+			co := calleeObj(call)
+			return co != nil && types.Object(co) == setSecret.Object()
+		})
+		users := c11Stores(root, a.fUser)
 		ord := map[string]int{}
 		for _, s := range steps {
-			label := calleeFn(s).Name()
+			label := calleeFn(s.call).Name()
 			ord[label]++
 			if ord[label] > 1 {
 				label += fmt.Sprintf("#%d", ord[label])
 			}
-			_, fail, checked := callErrEdges(fn, s)
-			if !checked {
-				c.Violate(rule, name+"#step:"+label, "the error of this step is never tested", s.Pos())
-				continue
-			}
-			okFail := true
-			for _, fe := range fail {
-				if len(fe.To().Instrs) == 0 {
+			g := s.env.fn
+			fail := newCuts()
+			if c11NilErrCuts(g, s.call, fail, true) == 0 {
+				if okc := newCuts(); c11NilErrCuts(g, s.call, okc, false) > 0 && s.env.parent == nil {
+					// "return step(...)": the step's failure is the exchange's
+					c.Ok(rule, name+"#step:"+label, "the error of this step is the function's own result", s.call.Pos())
+				} else {
+					c.Violate(rule, name+"#step:"+label, "the error of this step is never tested", s.call.Pos())
 					continue
 				}
-				start := Point{fe.To(), 0}
-				for _, t := range succ {
-					if p := findPath(start, t, stored); p != nil {
+			}
+			var starts []*ssa.BasicBlock
+			for e := range fail.Edges {
+				starts = append(starts, e.To())
+			}
+			for v := range fail.Via {
+				starts = append(starts, v.From.Succs[v.Succ])
+			}
+			exits := succ
+			if s.env.parent != nil {
+				exits = c.c11Exits(s.env, errRet)
+			}
+			stored := storedQ.cutsOf(s.env).cuts
+			okFail := true
+			for _, b := range starts {
+				if len(b.Instrs) == 0 {
+					continue
+				}
+				for _, t := range exits {
+					if p := findPath(Point{b, 0}, t, stored); p != nil {
 						okFail = false
-						c.Violate(rule, name+"#step:"+label, "a failure of this step can reach a success return without being returned or stored with storeAuthError", s.Pos(), c.describePath(p)...)
+						c.Violate(rule, name+"#step:"+label, "a failure of this step can reach a success return without being returned or stored with storeAuthError", s.call.Pos(), c.describePath(p)...)
 						break
 					}
 				}
@@ -150,54 +263,78 @@ func c11r1(c *Ctx) {
 				}
 			}
 			if okFail {
-				c.Ok(rule, name+"#step:"+label, "a failure of this step is returned or stored before any success return", s.Pos())
+				c.Ok(rule, name+"#step:"+label, "a failure of this step is returned or stored before any success return", s.call.Pos())
 			}
-			start := after(s)
-			c.c11MustPass(rule, name+"#gate-after:"+label, fn, &start, guarded, gate, len(nilE), "an AuthError == nil edge (the final gate)", s.Pos())
+			// the final gate
+			start := after(s.site)
+			construct := name + "#gate-after:" + label
+			what := "an AuthError == nil edge (the final gate)"
+			if he := s.env.enter(s.call); he != nil && s.env.parent == nil && len(fail.Edges)+len(fail.Via) == 0 && gateQ.summary(he).onNilErr {
+				c.Ok(rule, construct, "the step is the function's own result and succeeds only through "+what, s.call.Pos())
+				continue
+			}
+			if gate.n == 0 {
+				c.Violate(rule, construct, name+" has no such check: "+what, s.call.Pos())
+				continue
+			}
+			okGate := true
+			bad := func(in ssa.Instruction, p []*ssa.BasicBlock) {
+				okGate = false
+				c.Violate(rule, construct, "a path reaches "+c.Pos(in.Pos())+" without passing "+what, in.Pos(), c.describePath(p)...)
+			}
+			for _, t := range succ {
+				if p := findPath(start, t, gate.cuts); p != nil && okGate {
+					bad(t.Instr, p)
+				}
+			}
+			for _, cs := range secrets {
+				if ok, p := gateQ.guards(&start, cs.env, cs.call); !ok && okGate {
+					bad(cs.call, p)
+				}
+			}
+			for _, st := range users {
+				if ok, p := gateQ.guards(&start, st.env, st.st); !ok && okGate {
+					bad(st.st, p)
+				}
+			}
+			if okGate {
+				c.Ok(rule, construct, "every path passes "+what, s.call.Pos())
+			}
 		}
 	}
 	// storeAuthError
 	st := a.store
 	sname := fnName(st)
-	_, set := fieldCondEdges(st, a.fAuthErr)
+	sroot := c11Root(st)
 	var rets []Target
 	for _, r := range c.returnsOf(st) {
 		rets = append(rets, r.Target())
 	}
-	var sErr, sStatus []ssa.Instruction
-	for _, s := range c11FieldStores(st, a.fAuthErr) {
-		if len(st.Params) == 3 && s.Val == ssa.Value(st.Params[2]) {
-			sErr = append(sErr, s)
+	sErr, sStatus := map[ssa.Instruction]bool{}, map[ssa.Instruction]bool{}
+	for _, s := range c11Stores(sroot, a.fAuthErr) {
+		if len(st.Params) == 3 && c.c11All(s.val, func(l c11LV) bool { return l.V == ssa.Value(st.Params[2]) && l.E == sroot }) {
+			sErr[s.st] = true
 		}
 	}
-	for _, s := range c11FieldStores(st, a.fStatus) {
-		if v, isC := constInt(s.Val); isC && v == a.errVal && v != a.okVal {
-			sStatus = append(sStatus, s)
+	for _, s := range c11Stores(sroot, a.fStatus) {
+		if a.errVal != a.okVal && c.c11LVConstInt(s.val, a.errVal) {
+			sStatus[s.st] = true
 		}
 	}
-	c.c11MustPass(rule, sname+"#sets-AuthError", st, nil, rets, newCuts().AddEdges(set...).AddInstrs(sErr...), len(sErr), "a store of the error argument to AuthError (or an AuthError != nil edge)", st.Pos())
-	c.c11MustPass(rule, sname+"#sets-ErrorStatus", st, nil, rets, newCuts().AddEdges(set...).AddInstrs(sStatus...), len(sStatus), "a store of AUTH_PW_ERROR to ErrorStatus (or an AuthError != nil edge)", st.Pos())
+	already := c.c11AuthErrFact(a, false)
+	c.c11Pass(rule, sname+"#sets-AuthError", sroot, nil, rets, c11Fact{instr: func(in ssa.Instruction, _ *c11Env) bool { return sErr[in] }}, &already, "a store of the error argument to AuthError (or an AuthError != nil edge)", st.Pos())
+	c.c11Pass(rule, sname+"#sets-ErrorStatus", sroot, nil, rets, c11Fact{instr: func(in ssa.Instruction, _ *c11Env) bool { return sStatus[in] }}, &already, "a store of AUTH_PW_ERROR to ErrorStatus (or an AuthError != nil edge)", st.Pos())
 	// writers
-	poss := map[*ssa.Function]token.Pos{}
-	var wr []*ssa.Function
-	for f, p := range c.c11Writers(a.fAuthErr, nil) {
-		wr = append(wr, f)
-		poss[f] = p
-	}
-	sort.Slice(wr, func(i, j int) bool { return fnName(wr[i]) < fnName(wr[j]) })
-	c.whoMay(rule, "write TokenAuthData.AuthError", wr, poss, fnSet(st))
-	wr = nil
-	for f, p := range c.c11Writers(a.fStatus, nil) {
-		wr = append(wr, f)
-		poss[f] = p
-	}
-	sort.Slice(wr, func(i, j int) bool { return fnName(wr[i]) < fnName(wr[j]) })
-	c.whoMay(rule, "write TokenAuthData.ErrorStatus", wr, poss, fnSet(st, a.client, a.server))
+	c.c11WhoMay(rule, "write TokenAuthData.AuthError", c.c11Writers(a.fAuthErr, nil), fnSet(st))
+	c.c11WhoMay(rule, "write TokenAuthData.ErrorStatus", c.c11Writers(a.fStatus, nil), fnSet(st, a.client, a.server))
 	// the initial status written by the two entry functions is OK and nothing else
 	for _, fn := range []*ssa.Function{a.client, a.server} {
 		okInit := true
-		for _, s := range c11FieldStores(fn, a.fStatus) {
-			if v, isC := constInt(s.Val); !isC || v != a.okVal {
+		for _, s := range c11Stores(c11Root(fn), a.fStatus) {
+			if topFn(s.st.Parent()) == st {
+				continue
+			}
+			if !c.c11LVConstInt(s.val, a.okVal) {
 				okInit = false
 			}
 		}
@@ -205,16 +342,37 @@ func c11r1(c *Ctx) {
 	}
 	// every stored error is definitely non-nil
 	sites, ord := 0, map[string]int{}
-	for _, cs := range c.callSites(st.Object()) {
-		sites++
-		args := cs.Call.Common().Args
-		key := fnName(cs.Fn) + "#storeAuthError-arg"
-		ord[key]++
-		key += fmt.Sprintf("%d", ord[key])
-		cls := c.classifyErr(cs.Fn, args[len(args)-1], cs.Call.Block(), 0)
-		c.Check(cls == "error", rule, key, "the stored error is non-nil", "storeAuthError may be called with a nil error: the failure would not be recorded", cs.Call.Pos())
+	var visit func(g *ssa.Function, obj types.Object, argIdx int, depth int)
+	visit = func(g *ssa.Function, obj types.Object, argIdx int, depth int) {
+		for _, cs := range c.callSites(obj) {
+			args := cs.Call.Common().Args
+			if argIdx >= len(args) {
+				continue
+			}
+			arg := args[argIdx]
+			// a wrapper that hands its own error parameter on: the callers of the wrapper decide
+			if par, isPar := arg.(*ssa.Parameter); isPar && depth > 0 && cs.Fn.Parent() == nil && cs.Fn.Object() != nil && !cs.Fn.Object().Exported() && !c.c11UsedAsValue(cs.Fn) && len(c.callSites(cs.Fn.Object())) > 0 {
+				idx := -1
+				for i, q := range cs.Fn.Params {
+					if q == par {
+						idx = i
+					}
+				}
+				if idx >= 0 {
+					visit(cs.Fn, cs.Fn.Object(), idx, depth-1)
+					continue
+				}
+			}
+			sites++
+			key := fnName(cs.Fn) + "#storeAuthError-arg"
+			ord[key]++
+			key += fmt.Sprintf("%d", ord[key])
+			cls := c.classifyErr(cs.Fn, arg, cs.Call.Block(), 0)
+			c.Check(cls == "error", rule, key, "the stored error is non-nil", "storeAuthError may be called with a nil error: the failure would not be recorded", cs.Call.Pos())
+		}
 	}
-	c.MinCount(rule, "storeAuthError call sites", sites, 10)
+	visit(st, st.Object(), len(st.Params)-1, InlineDepth)
+	c.MinCount(rule, "storeAuthError call sites", sites, 1)
 	// ErrNetwork is only ever wrapped or compared, never returned bare (so errors.Unwrap of a
 	// step error that Is(ErrNetwork) is non-nil)
 	if g, ok := c.SSAPkg("security").Members["ErrNetwork"].(*ssa.Global); ok && g.Referrers() == nil {
@@ -245,180 +403,177 @@ func c11r1(c *Ctx) {
 	}
 }
 
-// c11Element is one comparison of a must-verify set: the edges on which it holds.
+// c11Element is one comparison of a must-verify set: the fact that has to be established.
 type c11Element struct {
 	label, what string
-	edges       []Edge
+	fact        c11Fact
 }
 
-// c11VerifySet checks that every success return of fn is behind a passing edge of every element,
-// unless a deferred failure was recorded on the way (storeAuthError; the final gate is C11-R1).
+// c11VerifySet checks that every success return of fn is behind every element, unless a deferred
+// failure was recorded on the way (storeAuthError; the final gate is C11-R1). Elements are found in
+// fn or in the same-package helpers it calls.
 func (c *Ctx) c11VerifySet(rule string, a *c11Anchors, fn *ssa.Function, els []c11Element) {
 	succ := c11Targets(c.successTargets(fn))
+	root := c11Root(fn)
+	stored := a.storedFact()
 	for _, el := range els {
-		cuts := newCuts().AddEdges(el.edges...).AddInstrs(a.storeCalls(fn)...)
-		c.c11MustPass(rule, fnName(fn)+"#"+el.label, fn, nil, succ, cuts, len(el.edges), el.what+" (or a recorded failure)", fn.Pos())
+		c.c11Pass(rule, fnName(fn)+"#"+el.label, root, nil, succ, el.fact, &stored, el.what+" (or a recorded failure)", fn.Pos())
 	}
 	c.MinCount(rule, "success returns of "+fnName(fn), len(succ), 1)
 }
 
-// statusOK: edges on which the peer's status integer equals AUTH_PW_A_OK.
-func (a *c11Anchors) statusOK(fn *ssa.Function) []Edge {
-	eq, _ := c11CmpEdges(fn, func(x, y ssa.Value) bool {
-		v, isC := constInt(y)
-		return isC && v == a.okVal && c11From(fn, x, a.getInt.Object(), 0)
+// storedFact: a failure is recorded with storeAuthError.
+func (a *c11Anchors) storedFact() c11Fact { return c11CallFact(a.store.Object()) }
+
+// statusOK: the peer's status integer equals AUTH_PW_A_OK.
+func (c *Ctx) c11StatusOK(a *c11Anchors) c11Fact {
+	return c11CmpFact(true, func(x, y c11LV) bool {
+		return c.c11LVConstInt(y, a.okVal) && c.c11LVFrom(x, a.getInt.Object(), 0)
 	})
-	return eq
 }
 
-// idEcho: edges on which a received id string equals authData.ClientID.
-func (a *c11Anchors) idEcho(fn *ssa.Function) []Edge {
-	eq, _ := c11CmpEdges(fn, func(x, y ssa.Value) bool {
-		return c11From(fn, x, a.getID.Object(), 0) && c11IsField(y, a.fClientID)
+// idEcho: a received id string equals authData.ClientID.
+func (c *Ctx) c11IDEcho(a *c11Anchors) c11Fact {
+	return c11CmpFact(true, func(x, y c11LV) bool {
+		return c.c11LVFrom(x, a.getID.Object(), 0) && c.c11LVField(y, a.fClientID)
 	})
-	return eq
 }
 
-// equalCalls: true edges of bytesEqual / hmac.Equal / bytes.Equal calls whose operands satisfy p, q (either order).
-func (c *Ctx) c11EqualCalls(a *c11Anchors, fn *ssa.Function, p, q func(ssa.Value) bool) []Edge {
-	var out []Edge
-	allInstrs(fn, func(_ *ssa.BasicBlock, _ int, in ssa.Instruction) {
-		call, ok := in.(*ssa.Call)
+// c11EqualFact: bytesEqual / hmac.Equal / bytes.Equal(x, y) is true, or
+// subtle.ConstantTimeCompare(x, y) == 1, with operands satisfying p, q (either order).
+func (c *Ctx) c11EqualFact(a *c11Anchors, p, q func(c11LV) bool) c11Fact {
+	operands := func(lv c11LV, names ...string) bool {
+		call, ok := lv.V.(*ssa.Call)
 		if !ok || len(call.Call.Args) != 2 {
-			return
+			return false
 		}
 		co := calleeObj(call)
 		if co == nil || co.Pkg() == nil {
-			return
+			return false
 		}
 		full := co.Pkg().Path() + "." + co.Name()
-		if types.Object(co) != a.bytesEq.Object() && full != "crypto/hmac.Equal" && full != "bytes.Equal" && full != "crypto/subtle.ConstantTimeCompare" {
-			return
+		hit := false
+		for _, n := range names {
+			if full == n || (n == "bytesEqual" && a.bytesEq != nil && types.Object(co) == a.bytesEq.Object()) {
+				hit = true
+			}
 		}
-		if full == "crypto/subtle.ConstantTimeCompare" {
-			return // returns int; not used today, would need its own edge logic
+		if !hit {
+			return false
 		}
-		x, y := call.Call.Args[0], call.Call.Args[1]
-		if (p(x) && q(y)) || (p(y) && q(x)) {
-			t, _ := boolEdges(fn, call)
-			out = append(out, t...)
+		x, y := c11LV{call.Call.Args[0], lv.E}, c11LV{call.Call.Args[1], lv.E}
+		return (p(x) && q(y)) || (p(y) && q(x))
+	}
+	return c11Fact{cond: func(lv c11LV, want bool) bool {
+		if want && operands(lv, "bytesEqual", "crypto/hmac.Equal", "bytes.Equal") {
+			return true
 		}
-	})
-	return out
+		bo, ok := lv.V.(*ssa.BinOp)
+		if !ok || (bo.Op != token.EQL && bo.Op != token.NEQ) || (bo.Op == token.EQL) != want {
+			return false
+		}
+		for _, xy := range [][2]ssa.Value{{bo.X, bo.Y}, {bo.Y, bo.X}} {
+			if k, isC := constInt(xy[1]); isC && k == 1 && operands(c11LV{xy[0], lv.E}, "crypto/subtle.ConstantTimeCompare") {
+				return true
+			}
+		}
+		return false
+	}}
 }
 
-// macOf: v is computeTokenMAC(SharedKeyK, …) whose parts depend on every field in deps.
-func (a *c11Anchors) macOf(fn *ssa.Function, v ssa.Value, key func(ssa.Value) bool, deps ...func(ssa.Value) bool) bool {
-	for _, o := range c11Origins(v) {
-		call := c11CallOf(o, a.computeMAC.Object(), 0)
+// c11MacOf: lv is computeTokenMAC(key, parts…) whose key satisfies key and whose parts depend on every dep.
+func (c *Ctx) c11MacOf(a *c11Anchors, lv c11LV, key func(c11LV) bool, deps ...func(ssa.Value) bool) bool {
+	return c.c11All(lv, func(l c11LV) bool {
+		call := c11CallOf(l.V, a.computeMAC.Object(), 0)
 		if call == nil {
 			return false
 		}
 		args := call.Common().Args // recv, key, parts
-		if len(args) != 3 || !key(args[1]) {
+		if len(args) != 3 || !key(c11LV{args[1], l.E}) {
 			return false
 		}
 		for _, d := range deps {
-			if !mustDepend(fn, args[2], d) {
+			if !c.c11Dep(c11LV{args[2], l.E}, d) {
 				return false
 			}
 		}
-	}
-	return true
-}
-
-func (a *c11Anchors) eomEdges(fn *ssa.Function) []Edge {
-	eq, _ := c11CmpEdges(fn, func(x, y ssa.Value) bool {
-		ld, ok := y.(*ssa.UnOp)
-		if !ok || ld.Op != token.MUL {
-			return false
-		}
-		g, ok := ld.X.(*ssa.Global)
-		if !ok || g.Pkg == nil || g.Pkg.Pkg.Path() != "io" || g.Name() != "EOF" {
-			return false
-		}
-		call, idx := originCall(x)
-		if call == nil || idx != 1 {
-			return false
-		}
-		co := calleeObj(call)
-		return co != nil && co.Name() == "GetChar"
+		return true
 	})
-	return eq
 }
 
-// nonceGenerated: in the sender fn, every success return passes a nil-error crypto/rand.Read into the
+// c11EOMFact: the error of a GetChar read equals io.EOF (nothing follows in the message).
+func (c *Ctx) c11EOMFact() c11Fact {
+	return c11CmpFact(true, func(x, y c11LV) bool {
+		isEOF := c.c11All(y, func(l c11LV) bool {
+			ld, ok := l.V.(*ssa.UnOp)
+			if !ok || ld.Op != token.MUL {
+				return false
+			}
+			g, ok := ld.X.(*ssa.Global)
+			return ok && g.Pkg != nil && g.Pkg.Pkg.Path() == "io" && g.Name() == "EOF"
+		})
+		return isEOF && c.c11All(x, func(l c11LV) bool {
+			call, idx := originCall(l.V)
+			if call == nil || idx != 1 {
+				return false
+			}
+			co := calleeObj(call)
+			return co != nil && co.Name() == "GetChar"
+		})
+	})
+}
+
+// c11Nonce: in the sender fn, every success return passes a nil-error crypto/rand.Read into the
 // nonce field f (freshly made, AUTH_PW_KEY_LEN long) or an edge on which ErrorStatus != AUTH_PW_A_OK.
 func (c *Ctx) c11Nonce(rule string, a *c11Anchors, fn *ssa.Function, f *types.Var, within map[*ssa.Function]bool, side string) {
 	name := fnName(fn)
-	var okE []Edge
-	n := 0
-	for _, fnc := range c11CallsInPkg(fn, "crypto/rand", "Read") {
-		if !c11IsField(fnc.Common().Args[0], f) {
-			continue
-		}
-		s, _, checked := callErrEdges(fn, fnc.Value())
-		if checked {
-			okE = append(okE, s...)
-			n++
-		}
+	root := c11Root(fn)
+	sites := c11Stores(root, f)
+	var storedVals []c11LV
+	stInstr := map[ssa.Instruction]bool{}
+	for _, st := range sites {
+		storedVals = append(storedVals, st.val)
+		stInstr[st.st] = true
 	}
-	_, notOK := c11CmpEdges(fn, func(x, y ssa.Value) bool {
-		v, isC := constInt(y)
-		return isC && v == a.okVal && c11IsField(x, a.fStatus)
-	})
-	cuts := newCuts().AddEdges(okE...).AddEdges(notOK...)
-	c.c11MustPass(rule, name+"#nonce-"+f.Name(), fn, nil, c11Targets(c.successTargets(fn)), cuts, n, "a nil-error crypto/rand.Read into "+f.Name()+" (or ErrorStatus != OK)", fn.Pos())
+	// the random bytes are read into the field, or into the buffer that is assigned to it
+	filled := c11Fact{errOK: func(call ssa.CallInstruction, e *c11Env) bool {
+		co := calleeObj(call)
+		if co == nil || co.Pkg() == nil || co.Pkg().Path() != "crypto/rand" || co.Name() != "Read" || len(call.Common().Args) != 1 {
+			return false
+		}
+		arg := c11LV{call.Common().Args[0], e}
+		return c.c11LVField(arg, f) || c.c11SameDeepLeaves(arg, storedVals)
+	}}
+	notOK := c11CmpFact(false, func(x, y c11LV) bool { return c.c11LVConstInt(y, a.okVal) && c.c11LVField(x, a.fStatus) })
+	succ := c11Targets(c.successTargets(fn))
+	c.c11Pass(rule, name+"#nonce-"+f.Name(), root, nil, succ, filled, &notOK, "a nil-error crypto/rand.Read into "+f.Name()+" (or ErrorStatus != OK)", fn.Pos())
+	assigned := c11Fact{instr: func(in ssa.Instruction, _ *c11Env) bool { return stInstr[in] }}
+	c.c11Pass(rule, name+"#nonce-"+f.Name()+"-assigned", root, nil, succ, assigned, &notOK, "the assignment of the fresh buffer to "+f.Name()+" (or ErrorStatus != OK)", fn.Pos())
 	// the buffer is a fresh allocation of the protocol length
 	keyLen, _ := c.c11ConstInt(rule, "AUTH_PW_KEY_LEN")
-	okBuf := false
-	for _, st := range c11FieldStores(fn, f) {
-		okBuf = true
-		switch x := st.Val.(type) {
-		case *ssa.Slice:
-			al, isAl := x.X.(*ssa.Alloc)
-			if !isAl {
-				okBuf = false
-				break
+	okBuf := len(sites) > 0
+	for _, st := range sites {
+		fresh := c.c11All(st.val, func(l c11LV) bool {
+			switch x := l.V.(type) {
+			case *ssa.Slice:
+				al, isAl := x.X.(*ssa.Alloc)
+				if !isAl {
+					return false
+				}
+				arr, isArr := al.Type().Underlying().(*types.Pointer).Elem().Underlying().(*types.Array)
+				return isArr && arr.Len() == keyLen && keyLen > 0
+			case *ssa.MakeSlice:
+				return keyLen > 0 && c.c11LVConstInt(c11LV{x.Len, l.E}, keyLen)
 			}
-			arr, isArr := al.Type().Underlying().(*types.Pointer).Elem().Underlying().(*types.Array)
-			if !isArr || arr.Len() != keyLen || keyLen <= 0 {
-				okBuf = false
-			}
-		case *ssa.MakeSlice:
-			if v, isC := constInt(x.Len); !isC || v != keyLen || keyLen <= 0 {
-				okBuf = false
-			}
-		default:
+			return false
+		})
+		if !fresh {
 			okBuf = false
-		}
-		if !okBuf {
-			break
 		}
 	}
 	c.Check(okBuf, rule, name+"#nonce-"+f.Name()+"-buffer", f.Name()+" is a fresh AUTH_PW_KEY_LEN-byte buffer", f.Name()+" is not assigned a fresh buffer of AUTH_PW_KEY_LEN bytes before being filled", fn.Pos())
 	// on this side of the exchange nobody else assigns it
-	var wr []*ssa.Function
-	poss := map[*ssa.Function]token.Pos{}
-	for g, p := range c.c11Writers(f, within) {
-		wr = append(wr, g)
-		poss[g] = p
-	}
-	sort.Slice(wr, func(i, j int) bool { return fnName(wr[i]) < fnName(wr[j]) })
-	c.whoMay(rule, "write TokenAuthData."+f.Name()+" on the "+side, wr, poss, fnSet(fn))
-}
-
-// c11CallsInPkg lists calls in fn to pkg.name.
-func c11CallsInPkg(fn *ssa.Function, pkg, name string) []ssa.CallInstruction {
-	var out []ssa.CallInstruction
-	allInstrs(fn, func(_ *ssa.BasicBlock, _ int, in ssa.Instruction) {
-		if call, ok := in.(ssa.CallInstruction); ok {
-			if co := calleeObj(call); co != nil && co.Pkg() != nil && co.Pkg().Path() == pkg && co.Name() == name {
-				out = append(out, call)
-			}
-		}
-	})
-	return out
+	c.c11WhoMay(rule, "write TokenAuthData."+f.Name()+" on the "+side, c.c11Writers(f, within), fnSet(fn))
 }
 
 // c11Reach: functions statically reachable from fn (with closures), as a set over all their closures too.
@@ -429,38 +584,71 @@ func (c *Ctx) c11Reach(fn *ssa.Function) map[*ssa.Function]bool {
 // C11-R2: the server's must-verify set.
 func c11r2(c *Ctx) {
 	const rule = "C11-R2"
-	c.Doc(rule, "receiveServerTokenStep3: every success return that has not recorded a failure is behind status==AUTH_PW_A_OK, received client id == authData.ClientID, bytesEqual(received RB, authData.RB), bytesEqual(received MAC, computeTokenMAC(SharedKeyK, …ClientID…RB)) and the end-of-message test; RB is generated by crypto/rand in sendServerTokenStep2 and assigned nowhere else on the server side; bytesEqual compares length and every element")
+	c.Doc(rule, "receiveServerTokenStep3 (with the same-package helpers it calls): every success return that has not recorded a failure is behind status==AUTH_PW_A_OK, received client id == authData.ClientID, bytesEqual(received RB, authData.RB), bytesEqual(received MAC, computeTokenMAC(SharedKeyK, …ClientID…RB)) and the end-of-message test; RB is generated by crypto/rand in sendServerTokenStep2 and assigned nowhere else on the server side; bytesEqual compares length and every element")
 	a := c.c11Need(rule)
 	if a == nil {
 		return
 	}
 	fn := a.step3s
-	fromWire := func(v ssa.Value) bool { return c11From(fn, v, a.getRaw.Object(), 0) }
-	isRB := func(v ssa.Value) bool { return c11IsField(v, a.fRB) }
-	isK := func(v ssa.Value) bool { return c11IsField(v, a.fK) }
-	isMAC := func(v ssa.Value) bool {
-		return a.macOf(fn, v, isK, isFieldAccess(a.fClientID), isFieldAccess(a.fRB))
+	fromWire := func(v c11LV) bool { return c.c11LVFrom(v, a.getRaw.Object(), 0) }
+	isRB := func(v c11LV) bool { return c.c11LVField(v, a.fRB) }
+	isK := func(v c11LV) bool { return c.c11LVField(v, a.fK) }
+	isMAC := func(v c11LV) bool {
+		return c.c11MacOf(a, v, isK, isFieldAccess(a.fClientID), isFieldAccess(a.fRB))
 	}
 	c.c11VerifySet(rule, a, fn, []c11Element{
-		{"status-ok", "the status == AUTH_PW_A_OK edge", a.statusOK(fn)},
-		{"client-id", "the received client id == authData.ClientID edge", a.idEcho(fn)},
-		{"rb-echo", "the true edge of bytesEqual(received RB, authData.RB)", c.c11EqualCalls(a, fn, fromWire, isRB)},
-		{"mac", "the true edge of bytesEqual(received MAC, computeTokenMAC(SharedKeyK, ClientID, RB))", c.c11EqualCalls(a, fn, fromWire, isMAC)},
-		{"end-of-message", "the GetChar error == io.EOF edge", a.eomEdges(fn)},
+		{"status-ok", "the status == AUTH_PW_A_OK edge", c.c11StatusOK(a)},
+		{"client-id", "the received client id == authData.ClientID edge", c.c11IDEcho(a)},
+		{"rb-echo", "the true edge of bytesEqual(received RB, authData.RB)", c.c11EqualFact(a, fromWire, isRB)},
+		{"mac", "the true edge of bytesEqual(received MAC, computeTokenMAC(SharedKeyK, ClientID, RB))", c.c11EqualFact(a, fromWire, isMAC)},
+		{"end-of-message", "the GetChar error == io.EOF edge", c.c11EOMFact()},
 	})
 	c.c11Nonce(rule, a, a.step2s, a.fRB, c.c11Reach(a.server), "server side")
 	c.c11BytesEqual(rule, a)
 }
 
-// c11BytesEqual: bytesEqual returns true only for equal length and after comparing the elements.
+// c11BytesEqual: bytesEqual returns true only for equal length and after comparing the elements
+// (or hands its two parameters to bytes.Equal / hmac.Equal).
 func (c *Ctx) c11BytesEqual(rule string, a *c11Anchors) {
 	fn := a.bytesEq
+	if fn == nil {
+		c.Note("%s: no bytesEqual helper in package security; the comparisons of the must-verify sets are calls of bytes.Equal / hmac.Equal / subtle.ConstantTimeCompare", rule)
+		return
+	}
+	// delegation: bytesEqual may hand its two parameters to another function of the package that does
+	// the comparison; that function then carries the obligation
+	for d := 0; d < InlineDepth && len(fn.Params) == 2; d++ {
+		var next *ssa.Function
+		n := 0
+		for _, r := range c.returnsOf(fn) {
+			n++
+			call, ok := r.Ret.Results[0].(*ssa.Call)
+			if !ok || len(call.Call.Args) != 2 {
+				next = nil
+				break
+			}
+			g := calleeFn(call)
+			x, y := call.Call.Args[0], call.Call.Args[1]
+			p0, p1 := ssa.Value(fn.Params[0]), ssa.Value(fn.Params[1])
+			if g == nil || g.Blocks == nil || fnPkg(g) != fnPkg(fn) || g == fn || !((x == p0 && y == p1) || (x == p1 && y == p0)) || (next != nil && next != g) {
+				next = nil
+				break
+			}
+			next = g
+		}
+		if next == nil || n == 0 {
+			break
+		}
+		c.Note("%s: %s hands its parameters to %s, which is checked in its place", rule, fnName(fn), fnName(next))
+		fn = next
+	}
 	if len(fn.Params) != 2 {
 		c.Undecided(rule, fnName(fn)+"#shape", "unexpected signature", fn.Pos())
 		return
 	}
 	p0, p1 := ssa.Value(fn.Params[0]), ssa.Value(fn.Params[1])
 	var trueRets []Target
+	delegated := true
 	for _, b := range fn.Blocks {
 		if len(b.Instrs) == 0 {
 			continue
@@ -470,7 +658,35 @@ func (c *Ctx) c11BytesEqual(rule string, a *c11Anchors) {
 				continue
 			}
 			trueRets = append(trueRets, Target{Instr: r})
+			res := r.Results[0]
+			ctc := false
+			if bo, isBo := res.(*ssa.BinOp); isBo && bo.Op == token.EQL { // subtle.ConstantTimeCompare(a, b) == 1
+				if k, isC := constInt(bo.Y); isC && k == 1 {
+					res, ctc = bo.X, true
+				} else if k, isC := constInt(bo.X); isC && k == 1 {
+					res, ctc = bo.Y, true
+				}
+			}
+			call, isCall := res.(*ssa.Call)
+			std := false
+			if isCall && len(call.Call.Args) == 2 {
+				if co := calleeObj(call); co != nil && co.Pkg() != nil {
+					full := co.Pkg().Path() + "." + co.Name()
+					x, y := call.Call.Args[0], call.Call.Args[1]
+					known := (!ctc && (full == "bytes.Equal" || full == "crypto/hmac.Equal")) || (ctc && full == "crypto/subtle.ConstantTimeCompare")
+					std = known && ((x == p0 && y == p1) || (x == p1 && y == p0))
+				}
+			}
+			if !std {
+				delegated = false
+			}
 		}
+	}
+	c.MinCount(rule, "true returns of bytesEqual", len(trueRets), 1)
+	if delegated && len(trueRets) > 0 {
+		c.Ok(rule, fnName(fn)+"#length", "bytesEqual returns bytes.Equal / hmac.Equal / subtle.ConstantTimeCompare(…) == 1 of its two parameters", fn.Pos())
+		c.Ok(rule, fnName(fn)+"#elements", "bytesEqual returns bytes.Equal / hmac.Equal / subtle.ConstantTimeCompare(…) == 1 of its two parameters", fn.Pos())
+		return
 	}
 	lenOf := func(v ssa.Value, p ssa.Value) bool {
 		call, ok := v.(*ssa.Call)
@@ -480,8 +696,9 @@ func (c *Ctx) c11BytesEqual(rule string, a *c11Anchors) {
 		b, isB := call.Call.Value.(*ssa.Builtin)
 		return isB && b.Name() == "len" && call.Call.Args[0] == p
 	}
-	eq, _ := c11CmpEdges(fn, func(x, y ssa.Value) bool { return lenOf(x, p0) && lenOf(y, p1) })
-	c.c11MustPass(rule, fnName(fn)+"#length", fn, nil, trueRets, newCuts().AddEdges(eq...), len(eq), "the len(a) == len(b) edge", fn.Pos())
+	root := c11Root(fn)
+	sameLen := c11CmpFact(true, func(x, y c11LV) bool { return lenOf(x.V, p0) && lenOf(y.V, p1) })
+	c.c11Pass(rule, fnName(fn)+"#length", root, nil, trueRets, sameLen, nil, "the len(a) == len(b) edge", fn.Pos())
 	elem := func(v ssa.Value, p ssa.Value) (ssa.Value, bool) {
 		ld, ok := v.(*ssa.UnOp)
 		if !ok || ld.Op != token.MUL {
@@ -547,167 +764,151 @@ func (c *Ctx) c11BytesEqual(rule string, a *c11Anchors) {
 		}
 	}
 	c.Check(okElem && okRange, rule, fnName(fn)+"#elements", "a differing element at any index 0..len-1 returns false", "bytesEqual can return true although an element differs (comparison missing, or the index does not run over the whole length)", fn.Pos())
-	c.MinCount(rule, "true returns of bytesEqual", len(trueRets), 1)
 }
 
 // C11-R3: the client's must-verify set.
 func c11r3(c *Ctx) {
 	const rule = "C11-R3"
-	c.Doc(rule, "receiveTokenStep2: every success return that has not recorded a failure is behind status==AUTH_PW_A_OK, echoed client id == authData.ClientID, bytesEqual(echoed RA, authData.RA) and a nil-error verifyTokenMAC(SharedKeyK, ClientID, ServerID, RA, RB, received MAC); verifyTokenMAC succeeds only through bytesEqual(computeTokenMAC(key, all its parameters), expectedMAC); RA is generated by crypto/rand in sendClientTokenStep1 and assigned nowhere else on the client side")
+	c.Doc(rule, "receiveTokenStep2 (with the same-package helpers it calls, verifyTokenMAC among them): every success return that has not recorded a failure is behind status==AUTH_PW_A_OK, echoed client id == authData.ClientID, bytesEqual(echoed RA, authData.RA) and the true edge of bytesEqual(computeTokenMAC(SharedKeyK, ClientID, ServerID, RA, RB), MAC read from the wire); ServerID and RB are the values received in this message; RA is generated by crypto/rand in sendClientTokenStep1 and assigned nowhere else on the client side")
 	a := c.c11Need(rule)
 	if a == nil {
 		return
 	}
 	fn := a.step2c
-	fromWire := func(v ssa.Value) bool { return c11From(fn, v, a.getRaw.Object(), 0) }
-	isRA := func(v ssa.Value) bool { return c11IsField(v, a.fRA) }
-	var macOK []Edge
-	for _, cs := range callsIn(fn, a.verifyMAC.Object()) {
-		args := cs.Common().Args // recv, key, clientID, serverID, ra, rb, expectedMAC
-		good := len(args) == 7 && c11IsField(args[1], a.fK) && c11IsField(args[2], a.fClientID) && c11IsField(args[3], a.fServerID) &&
-			c11IsField(args[4], a.fRA) && c11IsField(args[5], a.fRB) && fromWire(args[6])
-		c.Check(good, rule, fnName(fn)+"#mac-args", "verifyTokenMAC receives SharedKeyK, ClientID, ServerID, RA, RB of the exchange and the MAC read from the wire", "verifyTokenMAC is not applied to (SharedKeyK, ClientID, ServerID, RA, RB, received MAC)", cs.Pos())
-		if s, _, checked := callErrEdges(fn, cs.Value()); checked && good {
-			macOK = append(macOK, s...)
-		}
+	fromWire := func(v c11LV) bool { return c.c11LVFrom(v, a.getRaw.Object(), 0) }
+	isRA := func(v c11LV) bool { return c.c11LVField(v, a.fRA) }
+	isK := func(v c11LV) bool { return c.c11LVField(v, a.fK) }
+	isMAC := func(v c11LV) bool {
+		return c.c11MacOf(a, v, isK, isFieldAccess(a.fClientID), isFieldAccess(a.fServerID), isFieldAccess(a.fRA), isFieldAccess(a.fRB))
 	}
 	c.c11VerifySet(rule, a, fn, []c11Element{
-		{"status-ok", "the status == AUTH_PW_A_OK edge", a.statusOK(fn)},
-		{"client-id", "the echoed client id == authData.ClientID edge", a.idEcho(fn)},
-		{"ra-echo", "the true edge of bytesEqual(echoed RA, authData.RA)", c.c11EqualCalls(a, fn, fromWire, isRA)},
-		{"mac", "a nil-error verifyTokenMAC", macOK},
+		{"status-ok", "the status == AUTH_PW_A_OK edge", c.c11StatusOK(a)},
+		{"client-id", "the echoed client id == authData.ClientID edge", c.c11IDEcho(a)},
+		{"ra-echo", "the true edge of bytesEqual(echoed RA, authData.RA)", c.c11EqualFact(a, fromWire, isRA)},
+		{"mac", "the true edge of bytesEqual(computeTokenMAC(SharedKeyK, ClientID, ServerID, RA, RB), received MAC) (verifyTokenMAC)", c.c11EqualFact(a, isMAC, fromWire)},
 	})
 	// the values the MAC is checked over are the ones just received
-	okSrv := false
-	for _, st := range c11FieldStores(fn, a.fServerID) {
-		okSrv = c11From(fn, st.Val, a.getID.Object(), 0)
+	root := c11Root(fn)
+	okSrv, okRB := false, false
+	for _, st := range c11Stores(root, a.fServerID) {
+		okSrv = c.c11LVFrom(st.val, a.getID.Object(), 0)
 	}
-	okRB := false
-	for _, st := range c11FieldStores(fn, a.fRB) {
-		okRB = c11From(fn, st.Val, a.getRaw.Object(), 0)
+	for _, st := range c11Stores(root, a.fRB) {
+		okRB = c.c11LVFrom(st.val, a.getRaw.Object(), 0)
 	}
 	c.Check(okSrv && okRB, rule, fnName(fn)+"#mac-inputs", "ServerID and RB are the values received in this message", "ServerID / RB used for the MAC are not the values received in this message", fn.Pos())
-	// verifyTokenMAC
-	vm := a.verifyMAC
-	if len(vm.Params) == 7 {
-		par := func(i int) func(ssa.Value) bool {
-			return func(v ssa.Value) bool { return v == ssa.Value(vm.Params[i]) }
-		}
-		isMAC := func(v ssa.Value) bool { return a.macOf(vm, v, par(1), par(2), par(3), par(4), par(5)) }
-		edges := c.c11EqualCalls(a, vm, isMAC, par(6))
-		c.c11MustPass(rule, fnName(vm)+"#compare", vm, nil, c11Targets(c.successTargets(vm)), newCuts().AddEdges(edges...), len(edges), "the true edge of bytesEqual(computeTokenMAC(key, clientID, serverID, ra, rb), expectedMAC)", vm.Pos())
-	} else {
-		c.Undecided(rule, fnName(vm)+"#compare", "unexpected verifyTokenMAC signature", vm.Pos())
-	}
 	c.c11Nonce(rule, a, a.step1c, a.fRA, c.c11Reach(a.client), "client side")
 }
 
 // C11-R4: provenance of the MAC keys.
 func c11r4(c *Ctx) {
 	const rule = "C11-R4"
-	c.Doc(rule, "on the server side TokenAuthData.Signature is assigned only in validateTokenAndDeriveKeys, from computeTokenSignature(loadSigningKey(…) on its nil-error edge, authData.Token); SharedKeyK/SharedKeyKP are written only by deriveTokenKeys, by reading an HKDF whose secret is authData.Signature; computeTokenSignature keys its HKDF with the signing key and MACs the token text")
+	c.Doc(rule, "on the server side TokenAuthData.Signature is assigned only in validateTokenAndDeriveKeys (or its helpers), from computeTokenSignature(loadSigningKey(…) on its nil-error edge, authData.Token); SharedKeyK/SharedKeyKP are written only by deriveTokenKeys (or its helpers), by reading an HKDF whose secret is authData.Signature; computeTokenSignature keys its HKDF with the signing key and MACs the token text")
 	a := c.c11Need(rule)
 	if a == nil {
 		return
 	}
 	reach := c.c11Reach(a.server)
-	var wr []*ssa.Function
-	poss := map[*ssa.Function]token.Pos{}
-	for f, p := range c.c11Writers(a.fSig, reach) {
-		wr = append(wr, f)
-		poss[f] = p
-	}
-	c.whoMay(rule, "write TokenAuthData.Signature on the server side", wr, poss, fnSet(a.validate))
+	c.c11WhoMay(rule, "write TokenAuthData.Signature on the server side", c.c11Writers(a.fSig, reach), fnSet(a.validate))
 	v := a.validate
-	n := 0
-	for _, st := range c11FieldStores(v, a.fSig) {
-		n++
-		good := false
-		for _, o := range c11Origins(st.Val) {
-			call := c11CallOf(o, a.computeSig.Object(), 0)
+	root := c11Root(v)
+	isLoadKey := func(call ssa.CallInstruction, _ *c11Env) bool {
+		co := calleeObj(call)
+		return co != nil && types.Object(co) == a.loadKey.Object()
+	}
+	keyLoaded := c11Fact{errOK: isLoadKey}
+	sigStores := c11Stores(root, a.fSig)
+	stSet := map[ssa.Instruction]bool{}
+	for i, st := range sigStores {
+		stSet[st.st] = true
+		construct := fmt.Sprintf("%s#Signature-store%d", fnName(v), i+1)
+		good := c.c11All(st.val, func(o c11LV) bool {
+			call := c11CallOf(o.V, a.computeSig.Object(), 0)
 			if call == nil {
-				good = false
-				break
+				return false
 			}
 			args := call.Common().Args // recv, key, token
-			kc := c11CallOf(args[1], a.loadKey.Object(), 0)
-			good = kc != nil && c11IsField(args[2], a.fToken)
-			if good {
-				s, _, checked := callErrEdges(v, kc.Value())
-				good = checked && findPath(entryPoint(v), Target{Instr: st}, newCuts().AddEdges(s...)) == nil
-			}
-			if !good {
-				break
-			}
+			return c.c11LVFrom(c11LV{args[1], o.E}, a.loadKey.Object(), 0) && c.c11LVField(c11LV{args[2], o.E}, a.fToken)
+		})
+		if good {
+			q := c.c11NewQuery(keyLoaded)
+			good, _ = q.guards(nil, st.env, st.st)
 		}
-		c.Check(good, rule, fmt.Sprintf("%s#Signature-store%d", fnName(v), n), "Signature = computeTokenSignature(successfully loaded signing key, authData.Token)", "Signature is not computed from the server's own signing key and the received token text", st.Pos())
+		c.Check(good, rule, construct, "Signature = computeTokenSignature(successfully loaded signing key, authData.Token)", "Signature is not computed from the server's own signing key and the received token text", st.st.Pos())
 	}
-	c.MinCount(rule, "stores to Signature in validateTokenAndDeriveKeys", n, 1)
-	// the success return passes such a store
-	var sts []ssa.Instruction
-	for _, st := range c11FieldStores(v, a.fSig) {
-		sts = append(sts, st)
+	c.MinCount(rule, "stores to Signature in validateTokenAndDeriveKeys", len(sigStores), 1)
+	// the keys are derived after such a store
+	assigned := c11Fact{instr: func(in ssa.Instruction, _ *c11Env) bool { return stSet[in] }}
+	derive := c11CallsTo(root, func(call ssa.CallInstruction) bool {
+		co := calleeObj(call)
+		return co != nil && types.Object(co) == a.deriveKeys.Object()
+	})
+	for i, d := range derive {
+		construct := fnName(v) + "#Signature-before-derive"
+		if i > 0 {
+			construct += fmt.Sprintf("#%d", i+1)
+		}
+		c.c11PassTo(rule, construct, nil, d.env, d.call, assigned, nil, "the assignment of Signature (before deriveTokenKeys)")
 	}
-	derive := callsIn(v, a.deriveKeys.Object())
-	var dt []Target
-	for _, d := range derive {
-		dt = append(dt, Target{Instr: d})
-	}
-	c.c11MustPass(rule, fnName(v)+"#Signature-before-derive", v, nil, dt, newCuts().AddInstrs(sts...), len(sts), "the assignment of Signature (before deriveTokenKeys)", v.Pos())
 	c.MinCount(rule, "deriveTokenKeys calls in validateTokenAndDeriveKeys", len(derive), 1)
 	// K, K'
 	d := a.deriveKeys
+	droot := c11Root(d)
 	for _, f := range []*types.Var{a.fK, a.fKP} {
-		wr, poss = nil, map[*ssa.Function]token.Pos{}
-		for g, p := range c.c11Writers(f, nil) {
-			wr = append(wr, g)
-			poss[g] = p
-		}
-		c.whoMay(rule, "write TokenAuthData."+f.Name(), wr, poss, fnSet(d))
+		c.c11WhoMay(rule, "write TokenAuthData."+f.Name(), c.c11Writers(f, nil), fnSet(d))
 	}
-	hk := c11CallsInPkg(d, "golang.org/x/crypto/hkdf", "New")
+	isHKDF := func(call ssa.CallInstruction) bool {
+		co := calleeObj(call)
+		return co != nil && co.Pkg() != nil && co.Pkg().Path() == "golang.org/x/crypto/hkdf" && co.Name() == "New"
+	}
+	hk := c11CallsTo(droot, isHKDF)
 	okSecret := len(hk) > 0
-	readers := map[ssa.Value]bool{}
 	for _, cs := range hk {
-		if !c11IsField(cs.Common().Args[1], a.fSig) {
+		if !c.c11LVField(c11LV{cs.call.Common().Args[1], cs.env}, a.fSig) {
 			okSecret = false
 		}
-		readers[cs.Value()] = true
 	}
 	c.Check(okSecret, rule, fnName(d)+"#hkdf-secret", "every HKDF in deriveTokenKeys is keyed with authData.Signature", "an HKDF in deriveTokenKeys is keyed with something other than authData.Signature", d.Pos())
 	for _, f := range []*types.Var{a.fK, a.fKP} {
-		filled := false
-		for _, cs := range c11CallsInPkg(d, "io", "ReadFull") {
-			args := cs.Common().Args
-			if readers[args[0]] && c11IsField(args[1], f) {
-				if s, _, checked := callErrEdges(d, cs.Value()); checked {
-					filled = c.c11MustPassQuiet(d, c11Targets(c.successTargets(d)), newCuts().AddEdges(s...))
-				}
+		f := f
+		read := c11Fact{errOK: func(call ssa.CallInstruction, e *c11Env) bool {
+			co := calleeObj(call)
+			if co == nil || co.Pkg() == nil || co.Pkg().Path() != "io" || co.Name() != "ReadFull" {
+				return false
 			}
-		}
+			args := call.Common().Args
+			fromHK := c.c11All(c11LV{args[0], e}, func(l c11LV) bool {
+				hc, _ := originCall(l.V)
+				return hc != nil && isHKDF(hc) && c.c11LVField(c11LV{hc.Common().Args[1], l.E}, a.fSig)
+			})
+			return fromHK && c.c11LVField(c11LV{args[1], e}, f)
+		}}
+		q := c.c11NewQuery(read)
+		ci := q.cutsOf(droot)
+		filled := ci.n > 0 && c.c11MustPassQuiet(d, c11Targets(c.successTargets(d)), ci.cuts)
 		c.Check(filled, rule, fnName(d)+"#fills-"+f.Name(), f.Name()+" is read from the HKDF (nil error) on every success path", f.Name()+" is not filled from the Signature-keyed HKDF on every success path", d.Pos())
 	}
-	c.MinCount(rule, "HKDF instances in deriveTokenKeys", len(hk), 2)
+	c.MinCount(rule, "HKDF instances in deriveTokenKeys", len(hk), 1)
 	// computeTokenSignature
 	cs := a.computeSig
 	if len(cs.Params) == 3 {
-		hk := c11CallsInPkg(cs, "golang.org/x/crypto/hkdf", "New")
+		csroot := c11Root(cs)
+		hk := c11CallsTo(csroot, isHKDF)
 		okKey := len(hk) > 0
 		for _, h := range hk {
-			if h.Common().Args[1] != ssa.Value(cs.Params[1]) {
+			if !c.c11All(c11LV{h.call.Common().Args[1], h.env}, func(l c11LV) bool { return l.V == ssa.Value(cs.Params[1]) }) {
 				okKey = false
 			}
 		}
 		c.Check(okKey, rule, fnName(cs)+"#hkdf-secret", "the JWT key is derived from the signing key", "computeTokenSignature does not key its HKDF with the signing key parameter", cs.Pos())
 		okTok := false
-		allInstrs(cs, func(_ *ssa.BasicBlock, _ int, in ssa.Instruction) {
-			call, ok := in.(*ssa.Call)
-			if ok && call.Call.IsInvoke() && call.Call.Method.Name() == "Write" && len(call.Call.Args) == 1 {
-				if mustDepend(cs, call.Call.Args[0], func(v ssa.Value) bool { return v == ssa.Value(cs.Params[2]) }) {
-					okTok = true
-				}
+		for _, w := range c11CallsTo(csroot, func(call ssa.CallInstruction) bool {
+			return call.Common().IsInvoke() && call.Common().Method.Name() == "Write" && len(call.Common().Args) == 1
+		}) {
+			if c.c11Dep(c11LV{w.call.Common().Args[0], w.env}, func(v ssa.Value) bool { return v == ssa.Value(cs.Params[2]) }) {
+				okTok = true
 			}
-		})
+		}
 		c.Check(okTok, rule, fnName(cs)+"#mac-input", "the token text is written into the MAC", "computeTokenSignature does not MAC the token text parameter", cs.Pos())
 	} else {
 		c.Undecided(rule, fnName(cs)+"#shape", "unexpected computeTokenSignature signature", cs.Pos())
@@ -727,26 +928,22 @@ func (c *Ctx) c11MustPassQuiet(fn *ssa.Function, targets []Target, cuts *Cuts) b
 // C11-R5: time validation.
 func c11r5(c *Ctx) {
 	const rule = "C11-R5"
-	c.Doc(rule, "validateTokenAndDeriveKeys succeeds only after a nil-error validateTokenTiming on the claims decoded from part 1 (the payload) of authData.Token; in validateTokenTiming a present exp is compared with time.Now().Unix() so that now >= exp cannot reach the success return, and a present iat so that now-iat > maxAge cannot (unless the bound is disabled, <= 0); every type-switch arm of a present claim leads to the comparison or to an error")
+	c.Doc(rule, "validateTokenAndDeriveKeys succeeds only after a nil-error validateTokenTiming on the claims decoded from part 1 (the payload) of authData.Token; in validateTokenTiming (with its helpers) every success path either finds the exp claim absent or passes the accepting edge of a comparison 'now < exp' of time.Now().Unix() with the claim (>= rejects), and either finds iat absent or passes 'now - iat <= maxAge' (or the bound switched off, <= 0); every type-switch arm of a present claim therefore leads to the comparison or to an error")
 	a := c.c11Need(rule)
 	if a == nil {
 		return
 	}
 	v := a.validate
-	isTok := func(x ssa.Value) bool { return c11IsField(x, a.fToken) }
-	var okE []Edge
-	n := 0
-	for _, cs := range callsIn(v, a.timing.Object()) {
-		args := cs.Common().Args // recv, claims, config
-		k, ok := c.c11TokenPart(v, args[1], isTok)
-		good := ok && k == 1
-		c.Check(good, rule, fnName(v)+"#timing-arg", "validateTokenTiming receives the claims decoded from the token's payload", "validateTokenTiming is not applied to the JSON decoded from part 1 (payload) of authData.Token", cs.Pos())
-		if s, _, checked := callErrEdges(v, cs.Value()); checked && good {
-			okE = append(okE, s...)
-			n++
+	isTok := func(x c11LV) bool { return c.c11LVField(x, a.fToken) }
+	timed := c11Fact{errOK: func(call ssa.CallInstruction, e *c11Env) bool {
+		co := calleeObj(call)
+		if co == nil || types.Object(co) != a.timing.Object() || len(call.Common().Args) != 3 {
+			return false
 		}
-	}
-	c.c11MustPass(rule, fnName(v)+"#timing-on-path", v, nil, c11Targets(c.successTargets(v)), newCuts().AddEdges(okE...), n, "a nil-error validateTokenTiming(payload claims)", v.Pos())
+		k, ok := c.c11TokenPartLV(c11LV{call.Common().Args[1], e}, isTok) // recv, claims, config
+		return ok && k == 1
+	}}
+	c.c11Pass(rule, fnName(v)+"#timing-on-path", c11Root(v), nil, c11Targets(c.successTargets(v)), timed, nil, "a nil-error validateTokenTiming(claims decoded from the payload of authData.Token)", v.Pos())
 	c.c11Timing(rule, a.timing)
 }
 
@@ -757,239 +954,223 @@ func (c *Ctx) c11Timing(rule string, t *ssa.Function) {
 		c.Undecided(rule, name+"#shape", "unexpected validateTokenTiming signature", t.Pos())
 		return
 	}
-	claims := ssa.Value(t.Params[1])
+	root := c11Root(t)
+	isClaims := func(x c11LV) bool {
+		return c.c11All(x, func(l c11LV) bool { return l.V == ssa.Value(t.Params[1]) && l.E == root })
+	}
 	succ := c11Targets(c.successTargets(t))
 	c.MinCount(rule, "success returns of validateTokenTiming", len(succ), 1)
-	reaches := func(e Edge) bool {
-		if len(e.To().Instrs) == 0 {
-			return false
-		}
-		for _, s := range succ {
-			if findPath(Point{e.To(), 0}, s, nil) != nil {
-				return true
-			}
-		}
-		return false
-	}
 	for _, claim := range []string{"exp", "iat"} {
-		var lk *ssa.Lookup
-		for _, l := range c11Lookups(t, claim) {
-			if l.X == claims {
-				lk = l
-			}
-		}
+		claim := claim
 		construct := name + "#" + claim
-		if lk == nil || !lk.CommaOk {
-			c.Violate(rule, construct, "no presence-checked lookup of claim \""+claim+"\" in the claims parameter", t.Pos())
-			continue
+		isLookup := func(v ssa.Value, e *c11Env) *ssa.Lookup {
+			lk, ok := v.(*ssa.Lookup)
+			if !ok || !c.c11LVConstString(c11LV{lk.Index, e}, claim) || !isClaims(c11LV{lk.X, e}) {
+				return nil
+			}
+			return lk
 		}
-		present, _ := boolEdges(t, extractN(lk, 1))
-		if len(present) == 0 {
-			c.Undecided(rule, construct, "the presence flag of claims[\""+claim+"\"] is not branched on directly", lk.Pos())
-			continue
+		// the claim is absent: the presence flag of claims[claim] is false (or the looked-up value is nil)
+		absent := c11AnyFact(c11Fact{cond: func(lv c11LV, want bool) bool {
+			ex, ok := lv.V.(*ssa.Extract)
+			return ok && ex.Index == 1 && !want && isLookup(ex.Tuple, lv.E) != nil
+		}}, c11CmpFact(true, func(x, y c11LV) bool {
+			v := x.V
+			if ex, ok := v.(*ssa.Extract); ok && ex.Index == 0 {
+				v = ex.Tuple
+			}
+			return isNilConst(y.V) && isLookup(v, x.E) != nil
+		}))
+		fromClaim := func(x c11LV) bool {
+			return c.c11DepLV(x, func(y c11LV) bool { return isLookup(y.V, y.E) != nil })
 		}
-		fromClaim := func(x ssa.Value) bool {
-			return mustDepend(t, x, func(y ssa.Value) bool { return y == ssa.Value(lk) })
-		}
-		var rels []c11Rel
-		var accept, reject []Edge
+		isNow := func(x c11LV) bool { return c.c11IsNowLV(x) }
+		var accept c11Fact
 		problem := ""
+		var problemPos token.Pos
+		var bounds []c11LV
 		if claim == "exp" {
 			// oriented as  now OP exp
-			rels = c11Rels(t, c11IsNow, func(x ssa.Value) bool { return !c11IsNow(x) && fromClaim(x) })
-			for _, r := range rels {
-				switch r.Op {
-				case token.GEQ: // now >= exp: true edge rejects
-					reject, accept = append(reject, Edge{r.Block, 0}), append(accept, Edge{r.Block, 1})
-				case token.LSS: // now < exp: false edge rejects
-					reject, accept = append(reject, Edge{r.Block, 1}), append(accept, Edge{r.Block, 0})
-				default:
-					problem = "the expiry comparison is 'now " + r.Op.String() + " exp': a token is still accepted at now == exp"
-				}
-			}
+			accept = c11RelFact(isNow, func(x c11LV) bool { return !isNow(x) && fromClaim(x) }, func(op token.Token) bool { return op == token.LSS })
 		} else {
 			// oriented as  (now - iat) OP bound
-			isAge := func(x ssa.Value) bool {
-				bo, ok := x.(*ssa.BinOp)
-				return ok && bo.Op == token.SUB && c11IsNow(bo.X) && fromClaim(bo.Y)
+			isAge := func(x c11LV) bool {
+				return c.c11All(x, func(l c11LV) bool {
+					bo, ok := l.V.(*ssa.BinOp)
+					return ok && bo.Op == token.SUB && isNow(c11LV{bo.X, l.E}) && fromClaim(c11LV{bo.Y, l.E})
+				})
 			}
-			rels = c11Rels(t, isAge, func(x ssa.Value) bool { return !fromClaim(x) && !c11IsNow(x) })
-			var bounds []ssa.Value
-			for _, r := range rels {
-				bounds = append(bounds, r.R)
-				switch r.Op {
-				case token.GTR, token.GEQ:
-					reject, accept = append(reject, Edge{r.Block, 0}), append(accept, Edge{r.Block, 1})
-				case token.LEQ, token.LSS:
-					reject, accept = append(reject, Edge{r.Block, 1}), append(accept, Edge{r.Block, 0})
-				default:
-					problem = "the age comparison is 'age " + r.Op.String() + " maxAge'"
+			isBound := func(x c11LV) bool {
+				if fromClaim(x) || isNow(x) {
+					return false
 				}
+				bounds = append(bounds, x)
+				return true
 			}
-			// the bound may be switched off: edges on which it is <= 0
-			for _, bnd := range bounds {
-				for _, r := range c11Rels(t, func(x ssa.Value) bool { return x == bnd }, func(x ssa.Value) bool { z, isC := constInt(x); return isC && z == 0 }) {
-					switch r.Op {
-					case token.GTR:
-						accept = append(accept, Edge{r.Block, 1})
-					case token.LEQ:
-						accept = append(accept, Edge{r.Block, 0})
-					}
-				}
-			}
+			accept = c11RelFact(isAge, isBound, func(op token.Token) bool { return op == token.LEQ || op == token.LSS })
 		}
-		if len(rels) == 0 {
+		// comparisons of the clock with the claim, in the body and its helpers
+		nRel := 0
+		for _, e := range c11Bodies(root) {
+			allInstrs(e.fn, func(_ *ssa.BasicBlock, _ int, in ssa.Instruction) {
+				bo, ok := in.(*ssa.BinOp)
+				if !ok {
+					return
+				}
+				lv := c11LV{bo, e}
+				if accept.cond(lv, true) || accept.cond(lv, false) {
+					nRel++
+					return
+				}
+				switch bo.Op {
+				case token.LSS, token.LEQ, token.GTR, token.GEQ, token.EQL, token.NEQ:
+				default:
+					return
+				}
+				x, y := c11LV{bo.X, e}, c11LV{bo.Y, e}
+				if claim == "exp" && ((isNow(x) && fromClaim(y) && !isNow(y)) || (isNow(y) && fromClaim(x) && !isNow(x))) {
+					problem = "the expiry comparison is 'now " + bo.Op.String() + " exp' (operands as written): a token is still accepted at now == exp"
+					problemPos = bo.Pos()
+				}
+			})
+		}
+		if problem != "" {
+			c.Violate(rule, construct, problem, problemPos)
+			continue
+		}
+		if nRel == 0 {
 			what := "time.Now().Unix() with the exp claim"
 			if claim == "iat" {
 				what = "time.Now().Unix() - iat with the maximum age"
 			}
-			c.Violate(rule, construct, "no comparison of "+what, lk.Pos())
+			c.Violate(rule, construct, "no comparison of "+what, t.Pos())
 			continue
 		}
-		if problem != "" {
-			c.Violate(rule, construct, problem, rels[0].Block.Instrs[len(rels[0].Block.Instrs)-1].Pos())
-			continue
+		alt := absent
+		if claim == "iat" {
+			// the bound may be switched off: edges on which it is <= 0
+			bs := bounds
+			off := c11RelFact(func(x c11LV) bool { return c11SameLeaves(x, bs) }, func(x c11LV) bool { return c.c11LVConstInt(x, 0) }, func(op token.Token) bool { return op == token.LEQ })
+			alt = c11AnyFact(absent, off)
 		}
-		bad := false
-		for _, e := range reject {
-			if reaches(e) {
-				bad = true
-				c.Violate(rule, construct, "the rejecting edge of the "+claim+" comparison can reach the success return", e.From.Instrs[len(e.From.Instrs)-1].Pos())
-			}
+		what := "the accepting edge of the exp comparison (now < exp), or the claim being absent"
+		if claim == "iat" {
+			what = "the accepting edge of the age comparison (now - iat <= maxAge), the bound being switched off, or the claim being absent"
 		}
-		if bad {
-			continue
-		}
-		// from "claim present" every path to success passes an accepting edge of the comparison
-		okAll := true
-		for _, pe := range present {
-			if len(pe.To().Instrs) == 0 {
-				continue
-			}
-			for _, s := range succ {
-				if p := findPath(Point{pe.To(), 0}, s, newCuts().AddEdges(accept...)); p != nil {
-					okAll = false
-					c.Violate(rule, construct, "a token carrying "+claim+" can be accepted without the "+claim+" comparison", lk.Pos(), c.describePath(p)...)
-					break
-				}
-			}
-			if !okAll {
-				break
-			}
-		}
-		if okAll {
-			c.Ok(rule, construct, "a present "+claim+" claim is always compared with the clock, with the rejecting edge leading to an error", lk.Pos())
-		}
+		c.c11Pass(rule, construct, root, nil, succ, accept, &alt, what, t.Pos())
 	}
 }
 
 // C11-R6: the recorded identity is the signed subject.
 func c11r6(c *Ctx) {
 	const rule = "C11-R6"
-	c.Doc(rule, "validateTokenAndDeriveKeys: every assignment of authData.ClientID stores the string value of claim \"sub\" of the payload claims (or the empty string), every success return passes such an assignment and a non-empty test of it; on the server side ClientID is otherwise written only by receiveServerTokenStep1, which cannot run after the validation; the store to negotiation.User derives from authData.ClientID and is reachable only through a successful validateTokenAndDeriveKeys (paths with a recorded failure excluded)")
+	c.Doc(rule, "validateTokenAndDeriveKeys (with its helpers): every assignment of authData.ClientID stores the string value of claim \"sub\" of the payload claims (or the empty string), every success return passes such an assignment and a non-empty test of it; on the server side ClientID is otherwise written only by receiveServerTokenStep1, which cannot run after the validation; the store to negotiation.User derives from authData.ClientID and is reachable only through a successful validateTokenAndDeriveKeys (paths with a recorded failure excluded)")
 	a := c.c11Need(rule)
 	if a == nil {
 		return
 	}
 	v := a.validate
 	name := fnName(v)
-	isTok := func(x ssa.Value) bool { return c11IsField(x, a.fToken) }
-	isSub := func(x ssa.Value) bool { // x is the "sub" string of the payload claims, or ""
-		os := c11Origins(x)
-		if len(os) == 0 {
-			return false
-		}
-		for _, o := range os {
-			if s, isC := constString(o); isC && s == "" {
-				continue
-			}
-			obj, ok := c11ClaimString(o, "sub")
-			if !ok {
-				return false
-			}
-			if k, ok := c.c11TokenPart(v, obj, isTok); !ok || k != 1 {
-				return false
-			}
-		}
-		return true
+	root := c11Root(v)
+	isTok := func(x c11LV) bool { return c.c11LVField(x, a.fToken) }
+	isPayload := func(x c11LV) bool {
+		k, ok := c.c11TokenPartLV(x, isTok)
+		return ok && k == 1
 	}
-	var good []ssa.Instruction
-	var goodVals []ssa.Value
-	n := 0
-	for _, st := range c11FieldStores(v, a.fClientID) {
-		n++
-		if c.Check(isSub(st.Val), rule, fmt.Sprintf("%s#ClientID-store%d", name, n), "ClientID is assigned the signed subject", "ClientID is assigned a value that is not the \"sub\" claim of the token payload", st.Pos()) {
-			good = append(good, st)
-			goodVals = append(goodVals, st.Val)
+	good := map[ssa.Instruction]bool{}
+	var goodVals []c11LV
+	sites := c11Stores(root, a.fClientID)
+	for i, st := range sites {
+		if c.Check(c.c11ClaimStringLV(st.val, "sub", true, isPayload), rule, fmt.Sprintf("%s#ClientID-store%d", name, i+1), "ClientID is assigned the signed subject", "ClientID is assigned a value that is not the \"sub\" claim of the token payload", st.st.Pos()) {
+			good[st.st] = true
+			goodVals = append(goodVals, st.val)
 		}
 	}
 	succ := c11Targets(c.successTargets(v))
-	c.c11MustPass(rule, name+"#subject-assigned", v, nil, succ, newCuts().AddInstrs(good...), len(good),
+	assigned := c11Fact{instr: func(in ssa.Instruction, _ *c11Env) bool { return good[in] }}
+	c.c11Pass(rule, name+"#subject-assigned", root, nil, succ, assigned, nil,
 		"an assignment of the signed subject to ClientID (without it the id the client claimed in step 1 stays the recorded identity)", v.Pos())
 	// non-empty subject
-	_, ne := c11CmpEdges(v, func(x, y ssa.Value) bool {
-		s, isC := constString(y)
-		if !isC || s != "" {
+	nonEmpty := c11CmpFact(false, func(x, y c11LV) bool {
+		if !c.c11LVConstString(y, "") {
 			return false
 		}
-		if c11IsField(x, a.fClientID) {
-			return true
-		}
-		for _, g := range goodVals {
-			if x == g {
-				return true
-			}
-		}
-		return false
+		return c.c11LVField(x, a.fClientID) || c11SameLeaves(x, goodVals)
 	})
-	c.c11MustPass(rule, name+"#subject-non-empty", v, nil, succ, newCuts().AddEdges(ne...), len(ne), "the subject != \"\" edge", v.Pos())
-	c.MinCount(rule, "assignments of ClientID in validateTokenAndDeriveKeys", n, 1)
+	c.c11Pass(rule, name+"#subject-non-empty", root, nil, succ, nonEmpty, nil, "the subject != \"\" edge", v.Pos())
+	c.MinCount(rule, "assignments of ClientID in validateTokenAndDeriveKeys", len(sites), 1)
 	// writers on the server side
 	reach := c.c11Reach(a.server)
-	var wr []*ssa.Function
-	poss := map[*ssa.Function]token.Pos{}
-	for f, p := range c.c11Writers(a.fClientID, reach) {
-		wr = append(wr, f)
-		poss[f] = p
-	}
-	sort.Slice(wr, func(i, j int) bool { return fnName(wr[i]) < fnName(wr[j]) })
-	c.whoMay(rule, "write TokenAuthData.ClientID on the server side", wr, poss, fnSet(a.step1s, a.validate))
+	c.c11WhoMay(rule, "write TokenAuthData.ClientID on the server side", c.c11Writers(a.fClientID, reach), fnSet(a.step1s, a.validate))
 	// in the server exchange
 	s := a.server
-	vcalls := callsIn(s, a.validate.Object())
+	sroot := c11Root(s)
+	isCallTo := func(f *ssa.Function) func(ssa.CallInstruction) bool {
+		return func(call ssa.CallInstruction) bool {
+			co := calleeObj(call)
+			return co != nil && types.Object(co) == f.Object()
+		}
+	}
+	vcalls := c11CallsTo(sroot, isCallTo(a.validate))
 	c.MinCount(rule, "validateTokenAndDeriveKeys calls in the server exchange", len(vcalls), 1)
 	okOrder := true
 	for _, vc := range vcalls {
-		for _, s1 := range callsIn(s, a.step1s.Object()) {
-			if findPath(after(vc), Target{Instr: s1}, nil) != nil {
+		for _, s1 := range c11CallsTo(sroot, isCallTo(a.step1s)) {
+			if c11After(vc, s1) {
 				okOrder = false
 			}
 		}
 	}
 	c.Check(okOrder, rule, fnName(s)+"#claimed-id-before-validation", "the claimed id is received before the validation only", "receiveServerTokenStep1 can run after validateTokenAndDeriveKeys and overwrite the signed subject with the claimed id", s.Pos())
 	// live paths: a recorded failure or a seen AuthError != nil cannot pass the final gate (C11-R1)
-	_, set := fieldCondEdges(s, a.fAuthErr)
-	live := newCuts().AddEdges(set...).AddInstrs(a.storeCalls(s)...)
-	nv := 0
-	for _, vc := range vcalls {
-		if ok, _, checked := callErrEdges(s, vc.Value()); checked {
-			live.AddEdges(ok...)
-			nv++
-		}
-	}
-	us := c11FieldStores(s, a.fUser)
+	validated := c11Fact{errOK: func(call ssa.CallInstruction, _ *c11Env) bool { return isCallTo(a.validate)(call) }}
+	dead := c11AnyFact(a.storedFact(), c.c11AuthErrFact(a, false))
+	us := c11Stores(sroot, a.fUser)
 	for i, st := range us {
 		construct := fmt.Sprintf("%s#User-store%d", fnName(s), i+1)
-		c.Check(mustDepend(s, st.Val, isFieldAccess(a.fClientID)), rule, construct+":value", "negotiation.User derives from authData.ClientID", "negotiation.User does not derive from authData.ClientID", st.Pos())
-		c.c11MustPass(rule, construct+":validated", s, nil, []Target{{Instr: st}}, live, nv, "a successful validateTokenAndDeriveKeys", st.Pos())
+		c.Check(c.c11Dep(st.val, isFieldAccess(a.fClientID)), rule, construct+":value", "negotiation.User derives from authData.ClientID", "negotiation.User does not derive from authData.ClientID", st.st.Pos())
+		c.c11PassTo(rule, construct+":validated", nil, st.env, st.st, validated, &dead, "a successful validateTokenAndDeriveKeys")
 	}
 	c.MinCount(rule, "stores to negotiation.User in the server exchange", len(us), 1)
+}
+
+// c11AuthErrFact: authData.AuthError is nil (isNil) / non-nil on the edge.
+func (c *Ctx) c11AuthErrFact(a *c11Anchors, isNil bool) c11Fact {
+	return c11CmpFact(isNil, func(x, y c11LV) bool { return isNilConst(y.V) && c.c11LVField(x, a.fAuthErr) })
+}
+
+// c11After: call site y can execute after call site x (both found from the same root body): decided at
+// the deepest body that contains both.
+func c11After(x, y c11CallSite) bool {
+	chain := func(s c11CallSite) ([]*c11Env, []ssa.Instruction) {
+		var es []*c11Env
+		var is []ssa.Instruction
+		in := ssa.Instruction(s.call)
+		for e := s.env; e != nil; e = e.parent {
+			es = append([]*c11Env{e}, es...)
+			is = append([]ssa.Instruction{in}, is...)
+			in = e.call
+		}
+		return es, is
+	}
+	ex, ix := chain(x)
+	ey, iy := chain(y)
+	for i := 0; i < len(ex) && i < len(ey); i++ {
+		if ex[i] != ey[i] {
+			break
+		}
+		if ix[i] != iy[i] {
+			return findPath(after(ix[i]), Target{Instr: iy[i]}, nil) != nil
+		}
+	}
+	// one lies inside the other's callee, or they are the same site: only a loop brings y after x
+	return findPath(after(ix[0]), Target{Instr: iy[0]}, nil) != nil
 }
 
 // C11-R7: the standalone verifier.
 func c11r7(c *Ctx) {
 	const rule = "C11-R7"
-	c.Doc(rule, "VerifyIDToken: every success return is behind len(parts)==3, a nil-error loadSigningKey, the true edge of hmac.Equal(computeTokenSignature(that key, parts[0]+\".\"+parts[1]), base64-decoded parts[2]), a nil-error validateTokenTiming on the claims decoded from parts[1], and a non-empty Subject that is the \"sub\" claim of those claims")
+	c.Doc(rule, "VerifyIDToken (with its helpers): every success return is behind len(parts)==3, a nil-error loadSigningKey, the true edge of hmac.Equal(computeTokenSignature(that key, parts[0]+\".\"+parts[1]), base64-decoded parts[2]), a nil-error validateTokenTiming on the claims decoded from parts[1], and a non-empty Subject that is the \"sub\" claim of those claims")
 	a := c.c11Need(rule)
 	fn := c.needFn(rule, "security", "VerifyIDToken")
 	subj := c.needField(rule, "security", "IDTokenClaims", "Subject")
@@ -997,122 +1178,96 @@ func c11r7(c *Ctx) {
 		return
 	}
 	name := fnName(fn)
+	root := c11Root(fn)
 	succ := c11Targets(c.successTargets(fn))
 	c.MinCount(rule, "success returns of VerifyIDToken", len(succ), 1)
-	isSrc := func(x ssa.Value) bool {
-		if x == ssa.Value(fn.Params[0]) {
-			return true
-		}
-		call, ok := x.(*ssa.Call)
-		if !ok {
-			return false
-		}
-		co := calleeObj(call)
-		return co != nil && co.Pkg() != nil && co.Pkg().Path() == "strings" && co.Name() == "TrimSpace" && call.Call.Args[0] == ssa.Value(fn.Params[0])
+	isSrc := func(x c11LV) bool {
+		return c.c11All(x, func(l c11LV) bool {
+			if l.V == ssa.Value(fn.Params[0]) && l.E == root {
+				return true
+			}
+			call, ok := l.V.(*ssa.Call)
+			if !ok {
+				return false
+			}
+			co := calleeObj(call)
+			return co != nil && co.Pkg() != nil && co.Pkg().Path() == "strings" && co.Name() == "TrimSpace" &&
+				c.c11All(c11LV{call.Call.Args[0], l.E}, func(m c11LV) bool { return m.V == ssa.Value(fn.Params[0]) && m.E == root })
+		})
 	}
-	isSplit := func(x ssa.Value) bool {
-		call, _ := originCall(x)
-		if call == nil {
-			return false
-		}
-		co := calleeObj(call)
-		if co == nil || co.Pkg() == nil || co.Pkg().Path() != "strings" || co.Name() != "Split" {
-			return false
-		}
-		sep, isS := constString(call.Common().Args[1])
-		return isS && sep == "." && isSrc(call.Common().Args[0])
-	}
-	part := func(x ssa.Value, k int64) bool {
-		ld, ok := x.(*ssa.UnOp)
-		if !ok || ld.Op != token.MUL {
-			return false
-		}
-		ia, ok := ld.X.(*ssa.IndexAddr)
-		if !ok {
-			return false
-		}
-		i, isC := constInt(ia.Index)
-		return isC && i == k && isSplit(ia.X)
+	part := func(x c11LV, k int) bool {
+		i, ok := c.c11SplitPart(x, isSrc)
+		return ok && i == k
 	}
 	// three parts
-	eq, _ := c11CmpEdges(fn, func(x, y ssa.Value) bool {
-		n, isC := constInt(y)
-		call, ok := x.(*ssa.Call)
-		if !ok || !isC || n != 3 {
+	three := c11CmpFact(true, func(x, y c11LV) bool {
+		if !c.c11LVConstInt(y, 3) {
 			return false
 		}
-		b, isB := call.Call.Value.(*ssa.Builtin)
-		return isB && b.Name() == "len" && isSplit(call.Call.Args[0])
+		return c.c11All(x, func(l c11LV) bool {
+			call, ok := l.V.(*ssa.Call)
+			if !ok {
+				return false
+			}
+			b, isB := call.Call.Value.(*ssa.Builtin)
+			return isB && b.Name() == "len" && c.c11IsSplit(c11LV{call.Call.Args[0], l.E}, isSrc)
+		})
 	})
-	c.c11MustPass(rule, name+"#three-parts", fn, nil, succ, newCuts().AddEdges(eq...), len(eq), "the len(parts) == 3 edge", fn.Pos())
+	c.c11Pass(rule, name+"#three-parts", root, nil, succ, three, nil, "the len(parts) == 3 edge", fn.Pos())
 	// signature
-	isExpected := func(x ssa.Value) bool {
-		call := c11CallOf(x, a.computeSig.Object(), 0)
-		if call == nil {
-			return false
-		}
-		args := call.Common().Args
-		kc := c11CallOf(args[1], a.loadKey.Object(), 0)
-		if kc == nil {
-			return false
-		}
-		s, _, checked := callErrEdges(fn, kc.Value())
-		if !checked || findPath(entryPoint(fn), Target{Instr: call}, newCuts().AddEdges(s...)) != nil {
-			return false
-		}
-		// signing input = parts[0] + "." + parts[1]
-		outer, ok := args[2].(*ssa.BinOp)
-		if !ok || outer.Op != token.ADD || !part(outer.Y, 1) {
-			return false
-		}
-		inner, ok := outer.X.(*ssa.BinOp)
-		dot, isS := constString(inner.Y)
-		return ok && inner.Op == token.ADD && part(inner.X, 0) && isS && dot == "."
-	}
-	isActual := func(x ssa.Value) bool {
-		call, i := originCall(x)
-		if call == nil || i != 0 {
-			return false
-		}
+	keyLoaded := c11Fact{errOK: func(call ssa.CallInstruction, _ *c11Env) bool {
 		co := calleeObj(call)
-		if co == nil || co.Pkg() == nil || co.Pkg().Path() != "encoding/base64" || co.Name() != "DecodeString" {
-			return false
-		}
-		args := call.Common().Args
-		return part(args[len(args)-1], 2)
+		return co != nil && types.Object(co) == a.loadKey.Object()
+	}}
+	isExpected := func(x c11LV) bool {
+		return c.c11All(x, func(l c11LV) bool {
+			call := c11CallOf(l.V, a.computeSig.Object(), 0)
+			if call == nil {
+				return false
+			}
+			args := call.Common().Args
+			if !c.c11LVFrom(c11LV{args[1], l.E}, a.loadKey.Object(), 0) {
+				return false
+			}
+			if ok, _ := c.c11NewQuery(keyLoaded).guards(nil, l.E, call); !ok {
+				return false
+			}
+			// signing input = parts[0] + "." + parts[1]
+			return c.c11All(c11LV{args[2], l.E}, func(m c11LV) bool {
+				outer, ok := m.V.(*ssa.BinOp)
+				if !ok || outer.Op != token.ADD || !part(c11LV{outer.Y, m.E}, 1) {
+					return false
+				}
+				return c.c11All(c11LV{outer.X, m.E}, func(n c11LV) bool {
+					inner, ok := n.V.(*ssa.BinOp)
+					return ok && inner.Op == token.ADD && part(c11LV{inner.X, n.E}, 0) && c.c11LVConstString(c11LV{inner.Y, n.E}, ".")
+				})
+			})
+		})
 	}
-	sig := c.c11EqualCalls(a, fn, isExpected, isActual)
-	c.c11MustPass(rule, name+"#signature", fn, nil, succ, newCuts().AddEdges(sig...), len(sig), "the true edge of hmac.Equal(computeTokenSignature(loaded key, parts[0].parts[1]), decoded parts[2])", fn.Pos())
+	isActual := func(x c11LV) bool {
+		return c.c11Base64Of(x, func(s c11LV) bool { return part(s, 2) })
+	}
+	c.c11Pass(rule, name+"#signature", root, nil, succ, c.c11EqualFact(a, isExpected, isActual), nil, "the true edge of hmac.Equal(computeTokenSignature(loaded key, parts[0].parts[1]), decoded parts[2])", fn.Pos())
 	// timing on the payload claims
-	var okE []Edge
-	n := 0
-	var claimsVal ssa.Value
-	for _, cs := range callsIn(fn, a.timing.Object()) {
-		args := cs.Common().Args
-		k, ok := c.c11TokenPart(fn, args[1], isSrc)
-		if !ok || k != 1 {
-			continue
-		}
-		claimsVal = args[1]
-		if s, _, checked := callErrEdges(fn, cs.Value()); checked {
-			okE = append(okE, s...)
-			n++
-		}
+	isPayload := func(x c11LV) bool {
+		k, ok := c.c11TokenPartLV(x, isSrc)
+		return ok && k == 1
 	}
-	c.c11MustPass(rule, name+"#timing", fn, nil, succ, newCuts().AddEdges(okE...), n, "a nil-error validateTokenTiming(claims decoded from parts[1])", fn.Pos())
+	timed := c11Fact{errOK: func(call ssa.CallInstruction, e *c11Env) bool {
+		co := calleeObj(call)
+		return co != nil && types.Object(co) == a.timing.Object() && len(call.Common().Args) == 3 && isPayload(c11LV{call.Common().Args[1], e})
+	}}
+	c.c11Pass(rule, name+"#timing", root, nil, succ, timed, nil, "a nil-error validateTokenTiming(claims decoded from parts[1])", fn.Pos())
 	// subject
-	okSub, ns := true, 0
-	for _, st := range c11FieldStores(fn, subj) {
-		ns++
-		obj, ok := c11ClaimString(st.Val, "sub")
-		if !ok || obj != claimsVal || claimsVal == nil {
+	sites := c11Stores(root, subj)
+	okSub := len(sites) > 0
+	for _, st := range sites {
+		if !c.c11ClaimStringLV(st.val, "sub", false, isPayload) {
 			okSub = false
 		}
 	}
-	c.Check(okSub && ns > 0, rule, name+"#subject-value", "Subject is the \"sub\" claim of the verified payload", "Subject is not taken from the \"sub\" claim of the verified payload", fn.Pos())
-	_, ne := c11CmpEdges(fn, func(x, y ssa.Value) bool {
-		s, isC := constString(y)
-		return isC && s == "" && c11IsField(x, subj)
-	})
-	c.c11MustPass(rule, name+"#subject-non-empty", fn, nil, succ, newCuts().AddEdges(ne...), len(ne), "the Subject != \"\" edge", fn.Pos())
+	c.Check(okSub, rule, name+"#subject-value", "Subject is the \"sub\" claim of the verified payload", "Subject is not taken from the \"sub\" claim of the verified payload", fn.Pos())
+	nonEmpty := c11CmpFact(false, func(x, y c11LV) bool { return c.c11LVConstString(y, "") && c.c11LVField(x, subj) })
+	c.c11Pass(rule, name+"#subject-non-empty", root, nil, succ, nonEmpty, nil, "the Subject != \"\" edge", fn.Pos())
 }
